@@ -42,3 +42,56 @@ def run():
                 return n, {'case': case, 'observed': 'step ending at t=%r violates the trapezoid rule for %r: residual %.3e (50 tol = %.1e)' % (
                     float(t[k]), ss.dae.x_name[j], float(r[j]), 50 * tol)}
     return n, None
+
+
+def model_time_constants(ss):
+    """the time constant of every state as the models declare it now (not dae.Tf): 1 where none is declared"""
+    import numpy as np
+    T = np.ones(ss.dae.n)
+    for m in ss.exist.tds.values():
+        if m.n == 0:
+            continue
+        for st in m.states.values():
+            if st.t_const is not None and len(np.atleast_1d(st.a)) > 0:
+                T[st.a] = st.t_const.v
+    return T
+
+
+def run_altered():
+    """a time constant changed between two segments of a run (GENROU.M of one machine doubled at t = 0.5 s through Model.alter): every
+    step accepted afterwards satisfies the rule with the time constants the models hold NOW, including the steps after the line trip"""
+    import contextlib
+    import io
+    import logging
+    import numpy as np
+    import andes
+    logging.getLogger('andes').setLevel(logging.CRITICAL)
+    case = 'kundur/kundur_full.xlsx'
+    with contextlib.redirect_stdout(io.StringIO()), contextlib.redirect_stderr(io.StringIO()):
+        ss = andes.load(andes.get_case(case), default_config=True, no_output=True)
+        ss.TDS.config.store_f = 1
+        ss.PFlow.run()
+        ss.TDS.config.tf = 0.5
+        ok = ss.TDS.run()
+        dev = ss.GENROU.idx.v[1]
+        ss.GENROU.alter('M', dev, 2.0 * ss.GENROU.get('M', dev, 'vin'))
+        ss.TDS.config.tf = 3.0
+        ok = ok and ss.TDS.run()
+    if not ok:
+        return 0, {'case': case, 'observed': 'run with a parameter change at t=0.5 failed'}
+    T = model_time_constants(ss)
+    t, x, f = np.array(ss.dae.ts.t), np.array(ss.dae.ts.x), np.array(ss.dae.ts.f)
+    tol = ss.TDS.config.tol
+    n = 0
+    for k in range(1, len(t)):
+        if t[k - 1] < 0.5:
+            continue
+        n += 1
+        h = t[k] - t[k - 1]
+        r = np.abs(T * (x[k] - x[k - 1]) - 0.5 * h * (f[k] + f[k - 1]))
+        if np.max(r) > 50 * tol:
+            j = int(np.argmax(r))
+            return n, {'case': case, 'sequence': 'run to 0.5 s; GENROU.alter("M", %r, 2 M); run to 3 s' % (dev,),
+                       'observed': 'step ending at t=%r violates the trapezoid rule with the model\'s time constant for %r: residual %.3e (50 tol = %.1e)' % (
+                           float(t[k]), ss.dae.x_name[j], float(r[j]), 50 * tol)}
+    return n, (None if n > 0 else {'observed': 'no step after the parameter change'})
